@@ -26,7 +26,7 @@ static void add_con(Inst &I, int l, int r, double g, bool eq) { I.cs.push_back({
 
 static GenInfo gen_instance(Rng &R, Inst &I, long forceGen = -1, bool feasibleOnly = false) {
     GenInfo gi;
-    int which = forceGen >= 0 ? (int)forceGen : (int)R.ri(0, 9);
+    int which = forceGen >= 0 ? (int)forceGen : (int)R.ri(0, 10);
     bool integer = R.coin(0.5);
     gi.exact = integer;
     int n;
@@ -82,6 +82,12 @@ static GenInfo gen_instance(Rng &R, Inst &I, long forceGen = -1, bool feasibleOn
         for (int i = 0; i < n; i++) I.s[i] = integer ? (double)R.ri(1, 3) : (R.coin(0.5) ? 1.0 : R.rd(0.5, 3));
         int m = (int)R.ri(0, 3 * n);
         for (int c = 0; c < m && n > 1; c++) { int a = (int)R.ri(0, n - 1), b = (int)R.ri(0, n - 1); if (a == b) continue; if (a > b) std::swap(a, b); add_con(I, a, b, gap(), false); }
+        break; }
+    case 10: {  // scaled variables with cycles and duplicates (incremental solvers only; feasibility is not judged for scaled systems)
+        gi.gen = "scaled-cyclic"; gi.scaled = true;
+        for (int i = 0; i < n; i++) I.s[i] = integer ? (double)R.ri(1, 3) : (R.coin(0.5) ? 1.0 : R.rd(0.5, 3));
+        int m = (int)R.ri(0, 3 * n);
+        for (int c = 0; c < m && n > 1; c++) { int a = (int)R.ri(0, n - 1), b = (int)R.ri(0, n - 1); if (a == b) continue; if (R.coin(0.6) && a > b) std::swap(a, b); add_con(I, a, b, gap(), false); }
         break; }
     case 8: {  // many coincident desired positions and zero gaps (maximal ties)
         gi.gen = "ties"; gi.exact = true;
@@ -441,7 +447,7 @@ static double inst_scale(const Inst &I) {
 static void case_opt(const Args &a, long idx, bool wantDesc, CaseResult &res, bool perm) {
     Rng R(mix(mix(a.seed, perm ? 0xC02A : 0xC02), (uint64_t)idx));
     Inst I; GenInfo gi;
-    static const long gens[] = {0, 1, 2, 4, 5, 6, 7, 8, 9, 0, 7};
+    static const long gens[] = {0, 1, 2, 4, 5, 6, 7, 8, 9, 10, 7};
     gi = gen_instance(R, I, gens[R.ri(0, 10)]);
     if (perm && I.n() > 60) { I = Inst(); gi = gen_instance(R, I, 9); }
     res.gen = gi.gen + (gi.exact ? "/integer" : "/generic"); res.digest = inst_digest(I);
